@@ -14,6 +14,7 @@
 
 #include "JSON.hh"
 #include "Strings.hh"
+#include "common.hh"  // vf::poison_errno(): called right before every call into phosg
 
 namespace c05 {
 
@@ -108,8 +109,10 @@ inline Out run_entry(int entry, const std::string& doc, bool strict) {
   try {
     phosg::JSON v;
     if (entry == 0) {
+      vf::poison_errno();
       phosg::StringReader r(buf, n);
       try {
+        vf::poison_errno();
         v = phosg::JSON::parse(r, strict);
       } catch (...) {
         o.where = r.where();
@@ -119,11 +122,14 @@ inline Out run_entry(int entry, const std::string& doc, bool strict) {
       o.where = r.where();
       o.size = r.size();
     } else if (entry == 1) {
+      vf::poison_errno();
       v = phosg::JSON::parse(buf, n, strict);
     } else {
+      vf::poison_errno();
       v = phosg::JSON::parse(doc, strict);
     }
     o.ok = true;
+    vf::poison_errno();
     tagged(v, o.tag);
   } catch (const std::exception& e) {
     o.exc = demangle(typeid(e).name());
